@@ -378,12 +378,17 @@ Proof.
     try (apply rel_ok_map_at; assumption).
   - (* Setup *)
     cbn [negb]. rewrite !forallb_app. repeat (apply andb_true_iff; split).
+    + destruct (under (out_pkg c) (core_fqn c) && negb (path_eqb (out_pkg c) (core_fqn c))); reflexivity.
     + simpl. rewrite under_refl. reflexivity.
     + apply rel_ok_mkdirs_parent. exact HO.
     + apply rel_ok_mkdirs_self. exact HO.
     + reflexivity.
     + destruct (path_eqb (core_fqn c) (out_pkg c)); [reflexivity|].
       cbn [forallb]. rewrite (rel_ok_mkdirs_parent c _ HK), (rel_ok_mkdirs_self c _ HK). reflexivity.
+    + destruct (under (out_pkg c) (core_fqn c) && negb (path_eqb (out_pkg c) (core_fqn c))); [|reflexivity].
+      cbn [forallb]. rewrite andb_true_r.
+      change (Unstash (core_fqn c ++ [s_registry])) with (rebase (core_fqn c) (Unstash [s_registry])).
+      apply rel_ok_at. exact HK.
     + apply rel_ok_init_chain. exact HO.
     + destruct (core_str_inside_out c); [reflexivity | apply rel_ok_init_chain; exact HK].
   - (* RichInit *)
